@@ -18,7 +18,7 @@ SOURCES = ['SoupVerif/Properties/C12.lean', 'SoupVerif/Lemmas/Names.lean', 'Soup
 RULE = ('XML documents (lxml-xml) with default, prefixed, redeclared and undeclared namespaces on elements and attributes, '
         'HTML5 documents (html5lib) with inline SVG/MathML and xlink attributes, html.parser documents (no namespace '
         'support); prefix maps equal to, different from and colliding with the document\'s own prefixes, with and without a '
-        'default entry; every selector form: ns|E, *|E, |E, E, ns|*, [ns|a], [*|a], [|a], [a], unmapped prefixes; the same forms '
+        'default entry, and with prefixes mapped to the EMPTY string (= no namespace: n|E as |E, [n|a] as [|a]); every selector form: ns|E, *|E, |E, E, ns|*, [ns|a], [*|a], [|a], [a], unmapped prefixes; the same forms '
         'composed: compounds, combinators, selector lists, :is()/:where()/:not()/:has(), and reached through custom '
         'pseudo-classes (custom={":--x": "ns|E"}, nested definitions; patterns whose only prefixes live in the custom '
         'definitions and the reverse); one pattern evaluated under several prefix maps back to back (no purge). Checked '
@@ -104,7 +104,8 @@ def expect(sel_form, els, nsmap, supports):
         for k in e.attrs:
             kns = getattr(k, 'namespace', None)
             kname = getattr(k, 'name', None)
-            if pfx in (None, ''):
+            if pfx in (None, '') or (pfx != '*' and nsmap.get(pfx) == ''):
+                # `[a]`, `[|a]`, and a prefix mapped to the empty string (= "no namespace", as for `n|E`): the whole key
                 hit = hit or str(k) == name
             elif pfx == '*':
                 hit = hit or (kns is None and str(k) == name) or (kns is not None and kname == name)
@@ -170,7 +171,7 @@ def repeated_local_name(e):
 
 def prefix_for(r, pool, uri):
     """A way to write 'in namespace `uri`' (None: no namespace) under the pool's map."""
-    ways = [k for k, v in pool['ns'].items() if k and v == uri] * 3 + ['*']
+    ways = [k for k, v in pool['ns'].items() if k and v == (uri or '')] * 3 + ['*']      # a prefix mapped to '' says "no namespace"
     if not uri:
         ways += ['', '']
     return r.choice(ways)
@@ -373,7 +374,8 @@ class TreeOracle:
             return not self.attr(e, pfx, name, '=', val)
         for k, v in e.attrs.items():
             kns, kname = getattr(k, 'namespace', None), getattr(k, 'name', None)
-            if pfx in (None, ''):
+            if pfx in (None, '') or (pfx != '*' and self.ns.get(pfx) == ''):
+                # a prefix mapped to '' designates "no namespace": `[n|a]` reads as `[|a]` / `[a]`, as `n|E` reads as `|E`
                 hit = self.name_eq(str(k), name)
             elif pfx == '*':
                 hit = self.name_eq(str(k), name) if kns is None else self.name_eq(kname, name)
@@ -458,11 +460,11 @@ def vary_map(r, nsmap):
     x = r.random()
     keys = [k for k in m if k]
     if x < 0.3 and keys:
-        m[r.choice(keys)] = r.choice([U1, U2, U3, gen.XLINK, gen.XHTML])
+        m[r.choice(keys)] = r.choice([U1, U2, U3, gen.XLINK, gen.XHTML, ''])
     elif x < 0.5 and keys:
         del m[r.choice(keys)]
     elif x < 0.75:
-        m[r.choice(['p', 'q', 'svg', 'z', 'xlink', 'h'])] = r.choice([U1, U2, U3, gen.XLINK, gen.XHTML])
+        m[r.choice(['p', 'q', 'svg', 'z', 'xlink', 'h'])] = r.choice([U1, U2, U3, gen.XLINK, gen.XHTML, ''])
     elif '' in m:
         del m['']
     else:
@@ -520,7 +522,10 @@ def make_cases_factory(state):
                 uris = [U1, U2, U3, gen.XLINK, gen.XHTML] + (doc_uris * 2 if composed else [])
                 nsmap = {}
                 for p in rng.sample(['p', 'q', 'svg', 'z', 'xlink', 'h'], rng.randint(1 if composed and rng.random() < 0.9 else 0, 3)):
-                    nsmap[p] = rng.choice(uris)
+                    # a prefix may be mapped to the EMPTY string: it then designates "no namespace" (`n|E` = `|E`, `[n|a]` = `[|a]`)
+                    nsmap[p] = '' if rng.random() < 0.18 else rng.choice(uris)
+                empties = [k for k, v in nsmap.items() if k and v == '']
+                state['maps_with_prefix_mapped_to_empty'] += bool(empties)
                 if rng.random() < 0.25:
                     nsmap[''] = rng.choice(uris[:3] + uris[4:])
                 custom = {}
@@ -540,6 +545,9 @@ def make_cases_factory(state):
                             state['prefix_only_via_custom_no_default'] += 1
                 else:
                     pfx = rng.choice([None, '', '*', 'p', 'q', 'svg', 'z', 'xlink', 'h'])
+                    if empties and rng.random() < 0.5:
+                        pfx = rng.choice(empties)
+                        state['forms_with_prefix_mapped_to_empty'] += 1
                     form = (rng.choice(['type', 'type', 'attr']), pfx, rng.choice(NAMES + ATTRS + ['*', 'circle', 'mi', 'p']))
                     if form[0] == 'attr' and form[2] == '*':
                         continue
@@ -597,6 +605,8 @@ def run(chk):
                              'prefix_map_sequences_without_purge': state['map_sequences'],
                              'composed_selectors_with_attribute_value_tests': state['attr_value_tests'],
                              'documents': state['documents'],
+                             'prefix_maps_with_a_prefix_mapped_to_the_empty_string': state['maps_with_prefix_mapped_to_empty'],
+                             'single_forms_written_with_such_a_prefix': state['forms_with_prefix_mapped_to_empty'],
                              'documents_with_one_local_attribute_name_in_several_namespaces_on_one_element': state['documents_repeated_local']})
         for i, b in enumerate(state['bad'][:5]):
             chk.violation(f'rule{i}', {'what': 'namespace rule violated on the real code', **b}, concrete=True)
